@@ -297,3 +297,35 @@ hfunc(SIMF, 'Simulator.findFirstDependentPosition', ['self', 'obj'], props=('C04
              % (_REAL('p', 'q', '_i0'), _INS(_RS('p', 'q')), _INS('sinkPorts[q].parent')),
           2: '0 <= minPos and minPos < len(self.propagatables) and %s and forall(lambda k: implies(0 <= k and k < _i2, minPos <= pidx(sinks[k])))' % _INS('self.propagatables[minPos]')},
       ensures=_FFDP)
+
+
+# ------------------------------------------------------------------------------------------------- C11: integrity check
+DBG = 'py4hw/debug.py'
+_REGISTERED = lambda p: ('(exists(lambda j: 0 <= j and j < len(%s.parent.inPorts) and %s.parent.inPorts[j] == %s) or '
+                         'exists(lambda j: 0 <= j and j < len(%s.parent.outPorts) and %s.parent.outPorts[j] == %s))' % (p, p, p, p, p, p))
+hfunc(DBG, 'checkPort', ['port'], props=('C11',), modifies=[], raises_when='not %s' % _REGISTERED('port'))
+callee('f:checkPort', args=['port'], raises='not %s' % _REGISTERED('port'))
+callee('f:checkPortParent', args=['port', 'obj'])
+callee('f:checkIntegrity', args=['obj'], raises='not integ(obj)')
+_CK = 'obj.children.__keys'
+# integ(o): every port of o is attached to a driven wire, and every child has integrity (recursion equations of the specification)
+_INTEG_DEF = ('forall(lambda o: integ(o) == ('
+              'forall(lambda j: implies(0 <= j and j < len(o.inPorts), o.inPorts[j].wire.source != None)) and '
+              'forall(lambda j: implies(0 <= j and j < len(o.outPorts), o.outPorts[j].wire.source != None)) and '
+              'forall(lambda j: implies(0 <= j and j < len(o.children.__keys), integ(o.children[o.children.__keys[j]])))))')
+hfunc(DBG, 'checkIntegrity', ['obj'], props=('C11',),
+      uses=['f:checkPort', 'f:checkPortParent', 'f:checkIntegrity', 'acc:getSinks', 'acc:getSource', 'm:getFullPath'],
+      axioms=[_INTEG_DEF],
+      requires=[  # every driver port is registered with its block (INV of addOut / OutPort.__init__), so checkPort cannot fail
+          'forall(lambda w: implies(w.source != None, %s))' % _REGISTERED('w.source'),
+          'forall(lambda j: implies(0 <= j and j < len(%s), %s[j] in obj.children))' % (_CK, _CK)],
+      modifies=[],
+      invariants={0: 'True', 1: 'True',
+                  2: 'forall(lambda j: implies(0 <= j and j < _i2, obj.inPorts[j].wire.source != None))',
+                  3: 'forall(lambda j: implies(0 <= j and j < len(obj.inPorts), obj.inPorts[j].wire.source != None)) and '
+                     'forall(lambda j: implies(0 <= j and j < _i3, obj.outPorts[j].wire.source != None))',
+                  4: 'forall(lambda j: implies(0 <= j and j < len(obj.inPorts), obj.inPorts[j].wire.source != None)) and '
+                     'forall(lambda j: implies(0 <= j and j < len(obj.outPorts), obj.outPorts[j].wire.source != None)) and '
+                     'forall(lambda j: implies(0 <= j and j < _i4, integ(obj.children[%s[j]])))' % _CK},
+      # raises exactly when some port in the hierarchy is attached to a wire that no block drives
+      raises_when='not integ(obj)')
